@@ -6,6 +6,7 @@ from rules import paniclib, stackrules, cerules
 from rules.common import CallGraph, entry_bodies
 import engine
 import sym
+from facts import callee_name
 
 LEVEL = 'other'
 EXPLANATION = __doc__
@@ -36,7 +37,10 @@ def run(ctx, rep):
                            'an index into a vector in possible_intersection is not a constant position of a locally built vector: %s'
                            % sym.show(sym.noepoch(e['args'][1]))[:60], loc=b.loc(e['line']), reason='cannot-tabulate')
     rep.ob('P-bounded-index', 'possible_intersection/all-constant-indices-in-range', True)
-    rep.floor('P-bounded-index', 'index evaluations on paths', n_idx, 30)
+    # the floor guards against the rule silently not recognising the vector; when the function indexes no vector at all there is nothing to bound
+    has_vec_index = any(callee_name(t_).endswith('ops::Index<I>>::index') and 'Vec' in callee_name(t_) for _, t_ in b.calls())
+    if has_vec_index:
+        rep.floor('P-bounded-index', 'index evaluations on paths', n_idx, 30)
     # P-inventory
     sites = paniclib.panic_sites(f, local)
     led = json.load(open(os.path.join(engine.VERIF, 'sa', 'rules', 'c03_ledger.json')))
